@@ -2133,8 +2133,10 @@ namespace gch
         }
       }
 
+      // Note: `std::fill` assigns, so this shortcut also requires assignability.
       template <typename A = alloc_ty, typename V = value_ty,
         typename std::enable_if<is_trivially_constructible<V>::value
+                            &&  std::is_copy_assignable<V>::value
                             &&! must_use_alloc_construct<A, V>::value>::type * = nullptr>
       GCH_CPP20_CONSTEXPR
       ptr
@@ -2150,6 +2152,7 @@ namespace gch
 
       template <typename A = alloc_ty, typename V = value_ty,
         typename std::enable_if<! is_trivially_constructible<V>::value
+                              ||! std::is_copy_assignable<V>::value
                               ||  must_use_alloc_construct<A, V>::value>::type * = nullptr>
       GCH_CPP20_CONSTEXPR
       ptr
